@@ -366,6 +366,8 @@ func judge(r *rep.Report, w *world, run []op, ev map[string]interface{}, former 
 			switch {
 			case ref.HasMixedArray(when):
 				r.Violate("c01.mixed-array-pattern", "matching rule not dispatched (its `when` has an array mixing a variable and constants)", wit())
+			case w.kind == "indexed" && ref.HasOptionalVar(when):
+				r.Violate("c01.optional-variable", "matching rule not dispatched in indexed state (its `when` has an optional variable whose key the event lacks)", wit())
 			case ref.HasEmptyContainer(when):
 				r.Violate("c01.when-empty-container", "matching rule not dispatched (its `when` contains an empty map/array)", wit())
 			default:
@@ -481,6 +483,8 @@ func directed(r *rep.Report) {
 			[]map[string]interface{}{P("a", "s1")}},
 		{"unsortable-event", []op{{Op: "addRule", Loc: "child", Id: "r1", When: P("a", []interface{}{"s1"})}},
 			[]map[string]interface{}{P("a", []interface{}{"s1", 1})}},
+		{"optional-variable", []op{{Op: "addRule", Loc: "child", Id: "r1", When: P("a", "s1", "b", "??y")}},
+			[]map[string]interface{}{P("a", "s1"), P("a", "s1", "b", "here")}},
 		{"mixed-array", []op{{Op: "addRule", Loc: "child", Id: "r1", When: P("b", []interface{}{"", "?x", "s2"})}},
 			[]map[string]interface{}{P("b", []interface{}{"", "s2", "y"})}},
 	}
